@@ -69,7 +69,7 @@ type c08Env struct {
 	lastDiff map[string]string
 	pairs    map[uint64]lendtypes.Extended_Pair
 	sampled  map[string]bool
-	force    string // "inter-pool" / "inter-pool-2": the next txStep opens an inter-pool borrow close to its LTV bound (second form: through the second transit asset)
+	force    string // "inter-pool" / "inter-pool-2": the next txStep opens an inter-pool borrow close to its LTV bound (second form: through the second transit asset); "same-pool": a plain same-pool borrow close to its bound
 	panicked bool
 }
 
@@ -762,7 +762,7 @@ func (e *c08Env) txStep() {
 		if forced != "" {
 			var ip []uint64
 			for _, id := range pairIDs {
-				if p, ok := e.pair(id); ok && p.IsInterPool {
+				if p, ok := e.pair(id); ok && ((p.IsInterPool && forced != "same-pool") || (forced == "same-pool" && !p.IsInterPool && !p.IsEModeEnabled)) {
 					ip = append(ip, id)
 				}
 			}
